@@ -138,6 +138,10 @@ func (h *handler) Handle(ctx context.Context, header *protocol.RequestHeader, re
 				if strings.TrimSpace(name) == "" {
 					continue
 				}
+				if !h.allowAutoCreate(principal, name) {
+					h.recordAuthzDeniedWithPrincipal(principal, acl.ActionProduce, acl.ResourceTopic, name)
+					continue
+				}
 				if err := h.ensureTopic(ctx, name, 0); err != nil {
 					return nil, fmt.Errorf("auto-create topic %s: %w", name, err)
 				}
@@ -699,6 +703,14 @@ func (h *handler) allowTopic(principal string, topic string, action acl.Action) 
 		return true
 	}
 	return h.authorizer.Allows(principal, action, acl.ResourceTopic, topic)
+}
+
+// allowAutoCreate reports whether a metadata request of the principal may
+// auto-create the topic: it needs a data-plane permission (produce or fetch)
+// on that topic, the same permission under which produce and fetch
+// auto-create it. Without ACL enforcement everything is allowed.
+func (h *handler) allowAutoCreate(principal string, topic string) bool {
+	return h.allowTopic(principal, topic, acl.ActionProduce) || h.allowTopic(principal, topic, acl.ActionFetch)
 }
 
 func (h *handler) allowTopics(principal string, topics []string, action acl.Action) bool {
